@@ -1,5 +1,6 @@
 import Driver.Util
 import Driver.C02
+import Driver.C03
 import Driver.C05
 import Driver.C06
 import Driver.C07
@@ -11,6 +12,7 @@ def dispatch (j : Json) : Except String Json := do
   let p ← fld j "p" jStr
   match p with
   | "C02" => Drv.C02.handle j
+  | "C03" => Drv.C03.handle j
   | "C05" => Drv.C05.handle j
   | "C06" => Drv.C06.handle j
   | "C07" => Drv.C07.handle j
